@@ -62,8 +62,15 @@ fn sched(point: &'static str) {
 
 struct Accept;
 impl Future for Accept { type Output = (); fn poll(self: Pin<&mut Self>, _: &mut Context<'_>) -> Poll<()> { sched("p:accept_polled"); Poll::Pending } }
-struct W;
-impl Wake for W { fn wake(self: Arc<Self>) { WAKES.fetch_add(1, Ordering::SeqCst); let _g = CTL.lock().unwrap(); CV.notify_all(); } }
+/// the task's waker changes from poll to poll (as it does when the future moves between tasks, or sits in a `select!`): only a wake-up through the waker
+/// of the LATEST poll wakes the task; one through an earlier waker is counted apart and wakes nobody
+struct W(usize);
+static CURRENT: AtomicUsize = AtomicUsize::new(0);
+static STALE: AtomicUsize = AtomicUsize::new(0);
+impl Wake for W { fn wake(self: Arc<Self>) {
+    if self.0 == CURRENT.load(Ordering::SeqCst) { WAKES.fetch_add(1, Ordering::SeqCst); } else { STALE.fetch_add(1, Ordering::SeqCst); }
+    let _g = CTL.lock().unwrap(); CV.notify_all(); } }
+fn current_waker() -> Waker { Waker::from(Arc::new(W(CURRENT.load(Ordering::SeqCst)))) }
 
 fn wait_until(mut g: std::sync::MutexGuard<'static, Option<Ctl>>, ms: u64, cond: impl Fn(&Ctl) -> bool) -> (std::sync::MutexGuard<'static, Option<Ctl>>, bool) {
     let deadline = std::time::Instant::now() + Duration::from_millis(ms);
@@ -95,10 +102,11 @@ fn proto(scn: &Value) -> Value {
     let polls: Arc<Mutex<Vec<String>>> = Arc::new(Mutex::new(vec![]));
     let p2 = polls.clone();
     let pt = std::thread::spawn(move || {
-        let waker = Waker::from(Arc::new(W));
-        let mut cx = Context::from_waker(&waker);
         let mut fut = Box::pin(ctrlc.until_interrupt(Accept));
         loop {
+            CURRENT.fetch_add(1, Ordering::SeqCst);
+            let waker = current_waker();
+            let mut cx = Context::from_waker(&waker);
             match fut.as_mut().poll(&mut cx) {
                 Poll::Ready(x) => { p2.lock().unwrap().push(format!("ready:{}", if x.is_some() { "some" } else { "none" }));
                     let mut g = CTL.lock().unwrap(); g.as_mut().unwrap().p_done = Some(x.is_none()); CV.notify_all(); return }
@@ -118,7 +126,6 @@ fn proto(scn: &Value) -> Value {
         }
     });
     let mut stuck = 0; let mut skipped = 0;
-    let waker_for_spurious = Waker::from(Arc::new(W));
     for st in crate::util::arr(&scn["steps"]) {
         let (th, act) = (crate::util::s(&st[0]), crate::util::s(&st[1]));
         match th {
@@ -133,7 +140,8 @@ fn proto(scn: &Value) -> Value {
                 let at_end = CTL.lock().unwrap().as_ref().unwrap().parked[H] == Some("h:end");
                 if at_end { grant(H); }
             } }
-            "W" => waker_for_spurious.wake_by_ref(),
+            // a wake-up of the task by something else (whatever waker it holds at this moment)
+            "W" => { WAKES.fetch_add(1, Ordering::SeqCst); let _g = CTL.lock().unwrap(); CV.notify_all(); }
             "A" => match act {
                 "APollAccept" | "AWgPoll" => skipped += 1,
                 "ADrop" => { let at = CTL.lock().unwrap().as_ref().unwrap().parked[P]; if at == Some("p:after_load_true") { if !grant(P) { stuck += 1 } } else { skipped += 1 } }
@@ -160,7 +168,7 @@ fn proto(scn: &Value) -> Value {
     drop(g);
     let _ = pt.join();
     json!({"kind": "sd", "returned": returned, "lost": !returned, "quiet": quiet, "stuck": stuck, "skipped": skipped,
-           "hruns": hruns, "wakes": WAKES.load(Ordering::SeqCst), "polls": *polls.lock().unwrap(), "points": log})
+           "hruns": hruns, "wakes": WAKES.load(Ordering::SeqCst), "stale_wakes": STALE.load(Ordering::SeqCst), "polls": *polls.lock().unwrap(), "points": log})
 }
 
 // ------------------------------------------------------------------------------------------------
@@ -205,6 +213,11 @@ fn e2e(scn: &Value) -> Value {
     let steps: Vec<String> = crate::util::arr(&scn["steps"]).iter().map(|s| crate::util::s(&s[0]).to_string()).collect();
     let crashes: Vec<i64> = crate::util::arr(&scn["crash"]).iter().map(crate::util::i).collect();
     let upgraded: Vec<i64> = scn["ws"].as_array().map(|a| a.iter().map(crate::util::i).collect()).unwrap_or_default();
+    // timers of the server (read once per process, and this is a fresh one): a Keep-Alive deadline far shorter than the time the sessions stay in flight
+    // after the interrupt (`grace_ms`) -- for sessions the deadline does not apply to (WebSocket sessions have a timeout of their own)
+    if let Some(k) = scn["timers"]["keepalive"].as_u64() { std::env::set_var("OHKAMI_KEEPALIVE_TIMEOUT", k.to_string()) }
+    if let Some(k) = scn["timers"]["websocket"].as_u64() { std::env::set_var("OHKAMI_WEBSOCKET_TIMEOUT", k.to_string()) }
+    let grace_ms = scn["timers"]["grace_ms"].as_u64().unwrap_or(100);
     let rt = tokio::runtime::Builder::new_multi_thread().worker_threads(2).enable_all().build().unwrap();
     let out = rt.block_on(async move {
         let port = { let l = std::net::TcpListener::bind("127.0.0.1:0").unwrap(); l.local_addr().unwrap().port() };
@@ -278,7 +291,7 @@ fn e2e(scn: &Value) -> Value {
                 }
             }
             // grace period: with sessions in flight howl must still be running
-            if signalled && !inflight.is_empty() { tokio::time::sleep(Duration::from_millis(100)).await; ev("grace-over", inflight.len() as i64); }
+            if signalled && !inflight.is_empty() { tokio::time::sleep(Duration::from_millis(grace_ms)).await; ev("grace-over", inflight.len() as i64); }
             while let Some(i) = inflight.pop_front() { ev("release", i as i64); RELEASE.lock().unwrap()[i].notify_one(); }
             let mut returned = false;
             if signalled { for _ in 0..15000 { if EVENTS.lock().unwrap().iter().any(|(k, _)| k == "returned") { returned = true; break } tokio::time::sleep(Duration::from_millis(2)).await } }
